@@ -1,7 +1,7 @@
 SPECIFICATION Spec
 CONSTANTS MaxN = 3
   LenProfiles <- LensThorough
-  Forms <- FormsAll
+  Forms <- FormsThorough
   StopKinds = {"close", "abandon"}
   Scenarios <- ScenAll
   KeepHistory = TRUE
